@@ -83,6 +83,7 @@ func (w *structWriter) decode_method(def *model.Definition) error {
 	w.line(`b = b[len(b)-size:]
 	n := size - dataSize
 	off := len(b) - n
+	_ = off // a struct without fields decodes nothing
 	`)
 	w.line()
 
